@@ -269,6 +269,15 @@ def fam_sync_core(tier="quick"):
     m1 = ["lk 0 ; st 1 1 sc ; ul 0", "lk 0 ; ld 1 sc ; ul 0", "ld 1 sc"]
     m2 = ["lk 0 ; st 1 2 sc ; ul 0", "tl 0 ; st 1 3 sc ; ul 0", "ld 1 sc"]
     L += exhaustive("syM", ["M", "A0"], [m1, m2], 2, stride=1 if big else 2)
+    # three threads contending on one mutex: every acquisition order
+    L += exhaustive("syM3", ["M", "A0"], [["lk 0 ; rmw 1 add 1 sc ; ul 0", "st 1 5 sc ; lk 0 ; rmw 1 add 1 sc ; ul 0"],
+                                           ["lk 0 ; rmw 1 add 10 sc ; ul 0", "ld 1 sc ; lk 0 ; rmw 1 add 10 sc ; ul 0"],
+                                           ["lk 0 ; rmw 1 add 100 sc ; ul 0"]], 1)
+    L += exhaustive("syM3b", ["M", "A0", "A0", "A0"], [["lk 0 ; ld 1 sc ; ld 2 sc ; rmw 3 add 1 sc ; ul 0"],
+                                            ["st 1 1 sc ; lk 0 ; rmw 3 add 10 sc ; ul 0"],
+                                            ["st 2 1 sc ; lk 0 ; rmw 3 add 100 sc ; ul 0"]], 1, join=True)
+    L += exhaustive("syR3", ["R", "A0"], [["wr 0 ; rmw 1 add 1 sc ; uwr 0"], ["wr 0 ; rmw 1 add 10 sc ; uwr 0", "rd 0 ; ld 1 sc ; urd 0"],
+                                           ["wr 0 ; rmw 1 add 100 sc ; uwr 0", "rd 0 ; ld 1 sc ; urd 0"]], 1)
     # rwlock
     r1 = ["rd 0 ; ld 1 sc ; urd 0", "wr 0 ; st 1 1 sc ; uwr 0"]
     r2 = ["rd 0 ; ld 1 sc ; urd 0", "wr 0 ; st 1 2 sc ; uwr 0", "trd 0 ; ld 1 sc ; urd 0", "twr 0 ; st 1 3 sc ; uwr 0"]
@@ -345,6 +354,15 @@ def fam_lock_core(tier="quick"):
     # critical sections with a visible operation inside (a scheduling point)
     v = ["lk 0 ; st 1 1 sc ; st 1 2 sc ; ul 0", "tl 0 ; ld 1 sc ; ul 0", "lk 0 ; ld 1 sc ; ul 0"]
     L += exhaustive("lkV", ["M", "A0"], [v, v], 1)
+    # overlapping readers: a scheduling point inside the read sections, a writer after them
+    rr = ["rd 0 ; cr 1 ; yl ; urd 0", "rd 0 ; yl ; cr 1 ; urd 0", "trd 0 ; cr 1 ; yl ; urd 0"]
+    ww = ["wr 0 ; cw 1 ; uwr 0", "twr 0 ; cw 1 ; uwr 0", "wr 0 ; yl ; cw 1 ; uwr 0"]
+    L += exhaustive("lkRR", ["R", "U"], [ww, rr, rr], 1)
+    L += exhaustive("lkRW", ["R", "U"], [rr, rr, ww], 1)
+    # mutex sections with a scheduling point inside
+    my = ["lk 0 ; cw 1 ; yl ; cr 1 ; ul 0", "lk 0 ; yl ; cw 1 ; ul 0", "tl 0 ; cw 1 ; yl ; ul 0"]
+    L += exhaustive("lkMY", ["M", "U"], [my, my], 1)
+    L += exhaustive("lkMY3", ["M", "U"], [my[:1], my[:2], my], 1)
     return L
 
 
@@ -379,6 +397,10 @@ def fam_chan_core(tier="quick"):
     L += exhaustive("chB", ["H", "U", "U"], [h0, h1, h2], 1, main_post=["drx 0"])
     L += exhaustive("chC", ["H", "U", "U"], [["rv 0 ; cr 1", "rv 0 ; rv 0 ; cr 1 ; cr 2"], h1[2:], h2[1:]], 1, main_post=["drx 0"])
     L += exhaustive("chD", ["H"], [["rv 0"], ["sd 0 1"], ["sd 0 2"], ["sd 0 3"]], 1, main_post=["trv 0", "trv 0", "drx 0"])
+    # several messages queued at once: every receive orders the receiver after the send of the message it takes
+    L += exhaustive("chE", ["H", "U", "U"], [["rv 0 ; cr 1 ; rv 0 ; cr 2", "rv 0 ; cr 1", "trv 0 ; rv 0 ; cr 1 ; cr 2"],
+                                               ["cw 1 ; sd 0 3 ; cw 2 ; sd 0 4", "cw 1 ; cw 2 ; sd 0 3 ; sd 0 4 ; sd 0 5"]], 1, main_post=["trv 0", "trv 0", "drx 0"])
+    L += exhaustive("chF", ["H", "U", "U"], [["rv 0 ; rv 0 ; cr 1"], ["cw 1 ; sd 0 3"], ["sd 0 4", "sd 0 4 ; sd 0 5"]], 1, main_post=["trv 0", "drx 0"])
     return L
 
 
@@ -424,3 +446,87 @@ def fam_spin_core(tier="quick"):
     # a loop whose condition can never hold: branch limit, small max_branches to keep it short
     L += exhaustive("spNever", ["A0"], [["aw 0 5 acq"], ["st 0 1 rel"]], 1, mb=60)
     return L
+
+
+# ---------------------------------------------------------------------------- C12
+NUM_TYPES = {
+    "u8": (0, 2**8 - 1), "u16": (0, 2**16 - 1), "u32": (0, 2**32 - 1), "u64": (0, 2**64 - 1), "usize": (0, 2**64 - 1),
+    "i8": (-2**7, 2**7 - 1), "i16": (-2**15, 2**15 - 1), "i32": (-2**31, 2**31 - 1), "i64": (-2**63, 2**63 - 1),
+    "isize": (-2**63, 2**63 - 1), "bool": (0, 1), "ptr": (0, 2**64 - 1),
+}
+LOAD_ORDS = ["rlx", "acq", "sc"]
+STORE_ORDS = ["rlx", "rel", "sc"]
+RMW_ORDS = ["rlx", "rel", "acq", "ar", "sc"]
+
+
+def boundary_values(lo, hi):
+    vals = {lo, hi, 0, 1, lo + 1, hi - 1}
+    if lo < 0:
+        vals |= {-1, -2}
+    k = 1
+    while k <= hi:
+        vals |= {k, k - 1, min(hi, k + 1)}
+        if lo < 0 and -k >= lo:
+            vals |= {-k, max(lo, -k - 1)}
+        k *= 2
+    return sorted(v for v in vals if lo <= v <= hi)
+
+
+def num_case(rng, ty, cid, maxops=12):
+    lo, hi = NUM_TYPES[ty]
+    bv = boundary_values(lo, hi)
+
+    def val():
+        return rng.choice(bv) if rng.random() < 0.8 else rng.randint(lo, hi)
+    cur_guess = val()
+    init = cur_guess
+    ops = []
+    n = rng.randint(1, maxops)
+    arith = ["add", "sub", "and", "nand", "or", "xor", "max", "min"]
+    if ty == "bool":
+        arith = ["and", "nand", "or", "xor"]
+    for _ in range(n):
+        c = rng.random()
+        fo = rng.choice(LOAD_ORDS)
+        if c < 0.12:
+            ops.append(f"ld {rng.choice(LOAD_ORDS)}")
+        elif c < 0.22:
+            ops.append(f"st {val()} {rng.choice(STORE_ORDS)}")
+        elif c < 0.30:
+            ops.append(f"swap {val()} {rng.choice(RMW_ORDS)}")
+        elif c < 0.55 and ty != "ptr":
+            ops.append(f"rmw {rng.choice(arith)} {val()} {rng.choice(RMW_ORDS)}")
+        elif c < 0.65:
+            ops.append(f"cas {val()} {val()} {rng.choice(RMW_ORDS)} {fo}")
+        elif c < 0.72:
+            ops.append(f"casw {val()} {val()} {rng.choice(RMW_ORDS)} {fo}")
+        elif c < 0.78:
+            ops.append(f"cswap {val()} {val()} {rng.choice(RMW_ORDS)}")
+        elif c < 0.86 and ty != "ptr":
+            ops.append(f"fu {rng.choice(arith)} {val()} {rng.choice(RMW_ORDS)} {fo}")
+        elif c < 0.90:
+            ops.append(f"fun {rng.choice(RMW_ORDS)} {fo}")
+        elif c < 0.95 and ty != "bool":
+            ops.append(f"wm {val()}")
+        else:
+            ops.append("usl")
+    if ty not in ("bool", "ptr") and rng.random() < 0.3:
+        ops.append("ii")
+    return f"{cid} | {ty} | {init} | " + " ; ".join(ops)
+
+
+def fam_num(seed, per_type):
+    rng = random.Random(seed)
+    out = []
+    # a fixed corpus of boundary cases first
+    for ty, (lo, hi) in NUM_TYPES.items():
+        if ty in ("bool", "ptr"):
+            continue
+        out.append(f"fx_{ty}_0 | {ty} | {hi} | rmw add 1 sc ; ld sc ; rmw sub 1 sc ; ld sc ; rmw nand {lo} sc ; rmw max {lo} sc ; rmw min {hi} sc")
+        out.append(f"fx_{ty}_1 | {ty} | {lo} | rmw sub 1 rlx ; cas {hi} {lo} ar acq ; cas 0 1 sc sc ; fu add {hi} sc sc ; fun sc rlx ; wm {lo} ; usl ; cswap {lo} {hi} rel ; swap 0 ar ; ii")
+        # more than MAX_ATOMIC_HISTORY stores: the ring wraps
+        out.append(f"fx_{ty}_2 | {ty} | 0 | " + " ; ".join(f"st {i % (hi + 1)} rlx ; ld rlx" for i in range(1, 10)))
+    for ty in NUM_TYPES:
+        for i in range(per_type):
+            out.append(num_case(rng, ty, f"n{seed}_{ty}_{i}"))
+    return out
